@@ -182,7 +182,7 @@ Lemma dec_of_range s rows k r : 0 <= dec_of s rows k r <= 1.
 Proof.
   unfold dec_of. destruct k as [[i t] g].
   destruct (filter _ (filter _ rows)); [lia|].
-  destruct (negb _); [lia|]. destruct (existsb _ _); [lia|]. destruct (_ <? _); [lia|].
+  destruct (negb _); [lia|]. destruct (_ <? _); [lia|].
   destruct (_ && _); lia.
 Qed.
 
@@ -192,15 +192,24 @@ Proof.
   destruct (filter _ (filter _ rows)); reflexivity.
 Qed.
 
-Lemma zsum_dec_dose s rows ks r : r_amt r <> 0 -> zsum (map (fun k => dec_of s rows k r) ks) = 0.
+(* the loop never raises a DOSEID and leaves dose records alone *)
+Lemma fold_stepv_le s rows r ks : forall v, fold_left (stepv s rows r) ks v <= v.
 Proof.
-  intros H. induction ks as [|k ks IH]; [reflexivity|]. cbn [map]. rewrite zsum_cons, IH, dec_of_dose by exact H. lia.
+  induction ks as [|k ks IH]; intros v; [cbn; lia|]. cbn [fold_left]. specialize (IH (stepv s rows r v k)).
+  assert (stepv s rows r v k <= v); [|lia]. unfold stepv. assert (H := dec_of_range s rows k r). destruct (1 <? v); lia.
+Qed.
+
+Lemma fold_stepv_dose s rows r ks : r_amt r <> 0 -> forall v, fold_left (stepv s rows r) ks v = v.
+Proof.
+  intros H. induction ks as [|k ks IH]; intros v; [reflexivity|]. cbn [fold_left].
+  assert (stepv s rows r v k = v) as -> by (unfold stepv; rewrite dec_of_dose by exact H; destruct (1 <? v); lia).
+  apply IH.
 Qed.
 
 Lemma doseid_core_scan s rows :
   combine rows (doseid_core s rows)
-  = scan (fun rp x => (x, zsum (map dose_flag (filter (same_id x) rp)) + dose_flag x
-                          - zsum (map (fun k => dec_of s rows k x) (nonunique (map key_of (ann s rows)))))) [] rows.
+  = scan (fun rp x => (x, fold_left (stepv s rows x) (nonunique (map key_of (ann s rows)))
+                            (zsum (map dose_flag (filter (same_id x) rp)) + dose_flag x))) [] rows.
 Proof.
   unfold doseid_core. rewrite fold_step_closed by (unfold group_cumsum; apply scan_length).
   rewrite combine_map_snd. unfold group_cumsum. rewrite combine_scan, scan_map_out. reflexivity.
@@ -215,11 +224,8 @@ Proof.
   destruct (scan_split _ _ _ _ _ _ E) as [pre [r [post [Er [Ep [Ex _]]]]]]. rewrite app_nil_r in Ex.
   rewrite Ep in Hy. destruct (in_scan _ _ _ _ Hy) as [pre1 [r1 [post1 [Epre Ey]]]]. rewrite app_nil_r in Ey.
   subst x y. cbn [fst snd] in *.
-  assert (D0 : zsum (map (fun k => dec_of s rows k r) (nonunique (map key_of (ann s rows)))) = 0).
-  { apply zsum_dec_dose. lia. }
-  assert (D1 : 0 <= zsum (map (fun k => dec_of s rows k r1) (nonunique (map key_of (ann s rows))))).
-  { apply zsum_map_nonneg. intros k. apply dec_of_range. }
-  rewrite D0.
+  rewrite (fold_stepv_dose s rows r _ ltac:(lia)).
+  eapply Z.le_lt_trans; [apply fold_stepv_le|].
   assert (E1 : rev pre = rev post1 ++ r1 :: rev pre1).
   { rewrite Epre, rev_app_distr. cbn [rev]. rewrite <- app_assoc. reflexivity. }
   assert (E2 : filter (same_id r) (r1 :: rev pre1) = r1 :: filter (same_id r1) (rev pre1)).
@@ -323,8 +329,7 @@ Qed.
 
 Lemma doseid_impl_core d dids : doseid_impl d = Ok dids -> dids = doseid_core (ds_sch d) (ds_rows d).
 Proof.
-  unfold doseid_impl. destruct (negb (has_dose (ds_sch d))); [discriminate|].
-  destruct (has_evid (ds_sch d) && negb (id_named_ID (ds_sch d))); [discriminate|]. intros H. injection H as <-. reflexivity.
+  unfold doseid_impl. destruct (negb (has_dose (ds_sch d))); [discriminate|]. intros H. injection H as <-. reflexivity.
 Qed.
 
 Lemma tad_impl_inv d out : tad_impl d = Ok out ->
